@@ -1,0 +1,59 @@
+//go:build verif
+
+// Contracts for the deductive checker in /verif (comment-only).
+
+package matcher
+
+// ---------------------------------------------------------------- matcher.go (C03)
+// The oracle is the property text: the six-way conjunction on the name, empty options vacuous.
+//@ spec matchSpec(m Matcher, s bytes) bool :=
+//@      (m.Prefix    == "" ||  prefixof(m.Prefix, s))
+//@   && (m.NotPrefix == "" || !prefixof(m.NotPrefix, s))
+//@   && (m.Sub       == "" ||  contains(s, m.Sub))
+//@   && (m.NotSub    == "" || !contains(s, m.NotSub))
+//@   && (m.Regex     == "" ||  reMatch(m.Regex, s))
+//@   && (m.NotRegex  == "" || !reMatch(m.NotRegex, s))
+//@
+//@ // pfxNec(R, P): every input matched by regex R starts with P (what the regex-prefix shortcut relies on)
+//@ smt (declare-fun pfxNec (Bytes Bytes) Bool)
+//@ axiom pfxNec_def: (assert (forall ((r Bytes) (p Bytes) (s Bytes)) (! (=> (and (pfxNec r p) (reMatch r s)) (prefixof p s)) :pattern ((pfxNec r p) (reMatch r s)))))
+//@ axiom pfxNec_empty: (assert (forall ((r Bytes)) (! (pfxNec r bempty) :pattern ((pfxNec r bempty)))))
+//@
+//@ // wf: the internal byte slices and compiled regexes agree with the exported option strings
+//@ pred (m *Matcher) wf() := wfm(*m)
+//@ pred wfm(m Matcher) :=
+//@      m.prefix[..] == m.Prefix && m.notPrefix[..] == m.NotPrefix
+//@   && m.sub[..] == m.Sub && m.notSub[..] == m.NotSub
+//@   && ((m.Regex == "") == (m.regex == nil))       && (m.regex != nil    ==> m.regex.src == m.Regex)
+//@   && ((m.NotRegex == "") == (m.notRegex == nil)) && (m.notRegex != nil ==> m.notRegex.src == m.NotRegex)
+//@   && (m.regex != nil    ==> pfxNec(m.Regex, m.prefixFromRegex[..]))
+//@   && (m.regex == nil    ==> len(m.prefixFromRegex) == 0)
+//@   && (m.notRegex != nil ==> pfxNec(m.NotRegex, m.prefixFromNotRegex[..]))
+//@
+//@ func (m *Matcher) Match(s []byte) bool
+//@   property C03
+//@   requires m.wf()
+//@   ensures[conj] result == matchSpec(*m, s[..])
+//@
+//@ func (m *Matcher) PreMatch(s []byte) bool
+//@   property C03
+//@   requires m.wf()
+//@   ensures[necessary] matchSpec(*m, s[..]) ==> result
+//@
+//@ func regexToPrefix(regex string) []byte
+//@   property C03
+//@   ensures[prefix_necessary; C03; bounded] pfxNec(regex, result[..])
+//@   bounded TestBounded_regexToPrefix "all regexes "^" + <= 4 (thorough: 5) tokens over {^ a b . - \. ? * + {0} {1,2} ( ) | [ab]} x all inputs of length <= 5 over {a,b,.}, against the real regexp package"
+//@
+//@ // New / updateInternals establish wf (or return the compile error)
+//@ func (m *Matcher) updateInternals() error
+//@   property C03
+//@   requires m.regex == nil && m.notRegex == nil && len(m.prefixFromRegex) == 0 && len(m.prefixFromNotRegex) == 0
+//@   modifies m.prefix, m.notPrefix, m.sub, m.notSub, m.regex, m.notRegex, m.prefixFromRegex, m.prefixFromNotRegex
+//@   ensures[wf] result == nil ==> m.wf()
+//@   ensures[bad_regex] result != nil ==> true
+//@
+//@ func New(prefix string, notPrefix string, sub string, notSub string, regex string, notRegex string) (match Matcher, err error)
+//@   property C03
+//@   ensures[wf]   err == nil ==> wfm(match)
+//@   ensures[opts] match.Prefix == prefix && match.NotPrefix == notPrefix && match.Sub == sub && match.NotSub == notSub && match.Regex == regex && match.NotRegex == notRegex
